@@ -218,39 +218,37 @@ def run_schedule(make_bodies, prefix, point_filter=None, pristine=False):
     return x
 
 
-def explore(make_bodies, bound, check, point_filter=None, top_range=None, stats=None, pristine=False):
-    """Every schedule with <= bound preemptions.  `check(x)` judges one execution.
-    top_range=(lo, hi): restrict the first deviation from the default schedule to points lo..hi-1
-    (used to shard the exploration over processes; the default schedule belongs to the shard with lo == 0)."""
-    def rec(prefix, depth, lo, hi):
+def explore(make_bodies, bound, check, point_filter=None, first=0, shard=(0, 1), stats=None, pristine=False):
+    """Every schedule with <= bound preemptions whose first choice (which thread starts) is `first`.
+    shard=(k, n): of the points at which the default continuation can be preempted, only the k-th of n equal
+    slices is used for the *first* deviation (sharding over processes; the un-deviated schedule belongs to k == 0)."""
+    def rec(prefix, depth):
         x = run_schedule(make_bodies, prefix, point_filter, pristine)
         if stats is not None:
             stats["schedules"] = stats.get("schedules", 0) + 1
             stats["points"] = stats.get("points", 0) + len(x.points)
             stats["max_preemptions"] = max(stats.get("max_preemptions", 0), x.preemptions)
-        if depth > 0 or lo == 0:
+        if depth > 0 or shard[0] == 0:
             if not check(x):
                 return False
         start = len(prefix)
-        pre = 0
-        # preemptions among the prefix are fixed; count them as we go
-        for i, (enabled, preemptible) in enumerate(x.points):
-            if i < start:
-                if x.choices[i] != 0 and preemptible:
-                    pre += 1
-                continue
-            if depth == 0 and not (lo <= i < hi):
-                continue
+        cand = [i for i, (enabled, preemptible) in enumerate(x.points) if i >= start and len(enabled) > 1]
+        if depth == 0:
+            k, n = shard
+            cand = cand[(len(cand) * k) // n: (len(cand) * (k + 1)) // n]
+        pre = sum(1 for i in range(start) if x.choices[i] != 0 and x.points[i][1])
+        for i in cand:
+            enabled, preemptible = x.points[i]
+            # preemptions between the prefix and i are none (choices there are all 0)
             cost = pre + (1 if preemptible else 0)
             if cost > bound:
                 continue
             for alt in range(1, len(enabled)):
-                if not rec(x.choices[:i] + [alt], depth + 1, 0, 1 << 30):
+                if not rec(x.choices[:i] + [alt], depth + 1):
                     return False
         return True
 
-    lo, hi = top_range if top_range else (0, 1 << 30)
-    return rec([], 0, lo, hi)
+    return rec([first], 0)
 
 
 # ------------------------------------------------------------------------------ C08 harnesses
@@ -311,13 +309,13 @@ def make_harness(hname):
 def units(tier):
     u = []
     for h in HARNESSES:
-        if tier == "quick":
-            # bound 1 over write-ish points, sharded
-            u += [["S", h, 1, "write", k, 8] for k in range(8)]
-        else:
-            u += [["S", h, 1, "all", k, 16] for k in range(16)]
-            if h in BOUND2:
-                u += [["S", h, 2, "write", k, 48] for k in range(48)]
+        for first in (0, 1):
+            if tier == "quick":
+                u += [["S", h, 1, "write", first, k, 6] for k in range(6)]
+            else:
+                u += [["S", h, 1, "all", first, k, 12] for k in range(12)]
+                if h in BOUND2:
+                    u += [["S", h, 2, "write", first, k, 24] for k in range(24)]
     u.append(["S-determinism"])
     return u
 
@@ -326,11 +324,11 @@ def run_unit(res, unit, tier):
     if unit[0] == "S-determinism":
         determinism(res)
         return
-    _, hname, bound, pts, k, nshards = unit
+    _, hname, bound, pts, first, k, nshards = unit
     flt = write_points() if pts == "write" else None
     try:
         make_bodies, expected, ops = make_harness(hname)
-        x0 = run_schedule(make_bodies, [], flt, pristine=True)
+        x0 = run_schedule(make_bodies, [first], flt, pristine=True)
     except Divergence:
         raise
     except BaseException as e:   # the shared world cannot even be built / run sequentially: C08's H part reports why
@@ -338,7 +336,6 @@ def run_unit(res, unit, tier):
                       {"kind": "H", "ops": []}, observed=str(e)[-300:])
         return
     n = len(x0.points)
-    lo, hi = (n * k) // nshards, (n * (k + 1)) // nshards
     stats = {}
     outcomes = set()
 
@@ -362,12 +359,12 @@ def run_unit(res, unit, tier):
             res.count("nontrivial")
         return True
 
-    explore(make_bodies, bound, check, flt, top_range=(lo, hi), stats=stats, pristine=True)
+    explore(make_bodies, bound, check, flt, first=first, shard=(k, nshards), stats=stats, pristine=True)
     res.states.add(hash(("S", hname, "world-unchanged")))
     for o in outcomes:
         res.outcome(o)
     res.count("schedule_points_total", stats.get("points", 0))
-    if k == 0:
+    if k == 0 and first == 0:
         res.sample({"kind": "S", "harness": hname, "schedule": [0, 0, 1], "points": pts, "points_in_default_schedule": n})
 
 
